@@ -9,6 +9,13 @@
  */
 #define _GNU_SOURCE
 #include <pthread.h>
+/* In runs with a live stop (`stopat K`) the debug output of packets.c / rtr.c is switched off, as in a production build (NDEBUG):
+ * a write to stderr is a cancellation point, and where the state-machine thread can be cancelled must not depend on diagnostics.
+ * Every other run prints (and thereby checks the arguments of) the debug lines as before. */
+#include <stdbool.h>
+#include "rtrlib/lib/log_private.h"
+static bool dbg_quiet;
+#define lrtr_dbg(...) (dbg_quiet ? (void)0 : lrtr_dbg(__VA_ARGS__))
 #include "rtrlib/rtr/packets.c"
 #undef MGR_DBG1
 /* rtr_stop() cancels and joins the state-machine thread; when the script has already ended the
@@ -18,17 +25,30 @@ static int h_cancel(pthread_t t);
 static int h_join(pthread_t t, void **r);
 #define pthread_cancel(t) h_cancel(t)
 #define pthread_join(t, r) h_join(t, r)
+#ifdef XTRACE
+#include "xtrace.h"          /* translator validation: calls made by the code of rtr.c are logged (tools/xtracecheck.py) */
+#endif
 #include "rtrlib/rtr/rtr.c"
+#ifdef XTRACE
+#include "xtrace_undef.h"
+#endif
 #undef pthread_cancel
 #undef pthread_join
+#undef lrtr_dbg
 
 static int h_cancel(pthread_t t)
 {
 	return h_joined ? 0 : pthread_cancel(t);
 }
 
+/* live stop in the middle of a transport call (`stopat K`): rtr_stop has done everything that precedes the join; the state-machine
+ * thread, parked inside that call, is released now and runs on while rtr_stop waits for it */
+static void (*h_before_join)(void);
+
 static int h_join(pthread_t t, void **r)
 {
+	if (!h_joined && h_before_join)
+		h_before_join();
 	return h_joined ? 0 : pthread_join(t, r);
 }
 
@@ -80,8 +100,20 @@ static void tracef(const char *fmt, ...)
 	va_end(ap);
 	if (n < 0)
 		return;
-	if ((size_t)n >= sizeof(buf))
-		n = sizeof(buf) - 1;
+	if ((size_t)n >= sizeof(buf)) {
+		/* a line longer than the stack buffer (table dumps with hundreds of records): format it straight into the trace */
+		if (trace_len + n + 2 > trace_cap) {
+			trace_cap = (trace_len + n + 2) * 2;
+			trace = realloc(trace, trace_cap);
+		}
+		va_start(ap, fmt);
+		vsnprintf(trace + trace_len, (size_t)n + 1, fmt, ap);
+		va_end(ap);
+		trace_len += n;
+		trace[trace_len++] = '\n';
+		trace[trace_len] = 0;
+		return;
+	}
 	if (trace_len + n + 2 > trace_cap) {
 		trace_cap = (trace_len + n + 2) * 2;
 		trace = realloc(trace, trace_cap);
@@ -112,7 +144,7 @@ struct ev {
 static struct ev tape[QMAX];
 static int tape_head, tape_tail;
 
-enum sk { S_ALL, S_PART, S_ERR, S_BLOCK };
+enum sk { S_ALL, S_PART, S_ERR, S_BLOCK, S_DT /* `dt:N`: N seconds pass inside the write call that takes the next outcome */ };
 struct sev {
 	enum sk k;
 	long long n;
@@ -131,6 +163,73 @@ static volatile bool stop_called;
 static volatile int after_stop;
 static bool threaded;     /* a run through rtr_start is active */
 static bool direct_eof;   /* in direct (non-threaded) runs an empty tape answers TR_ERROR once */
+
+/* ---- `stopat K`: the K-th transport call (open / send / recv counted together) of the next `run fsm` is the one during which
+ * rtr_stop() is called from the main thread.  The state-machine thread parks at the entry of that call and hands the run back
+ * (as `hang` does); `run stop` then runs the real rtr_stop, and when that reaches pthread_join the parked call is released and
+ * completes NORMALLY with whatever the script holds next (the data had arrived, the write is accepted): what the thread does
+ * between the stop request and its exit is the implementation's business.  If cancellation is enabled at that call site the
+ * thread ends inside the call, exactly as in a blocking recv. */
+static int stop_at_call, call_no;
+static bool stop_at_join;
+static bool w_timeout;    /* `sendall`: write calls are traced with the timeout they were given (`V` lines) */
+
+static void unlock_mu(void *p);
+
+static void release_parked_call(void)
+{
+	pthread_mutex_lock(&mu);
+	stop_at_join = true;
+	pthread_cond_broadcast(&cv_resume);
+	pthread_mutex_unlock(&mu);
+}
+
+static void transport_call(const char *what)
+{
+	if (!threaded || !stop_at_call || ++call_no != stop_at_call)
+		return;
+	tracef("X stop-request during transport call %d (%s)", call_no, what);
+	int oldstate;
+
+	pthread_mutex_lock(&mu);
+	hanging = true;
+	parked = true;
+	pthread_cond_signal(&cv_parked);
+	/* the stop request arrives after the call has passed its last cancellation point (the data is there, the call is about to
+	 * return): waiting here must not be one (a stop that finds the thread blocked at a cancellation point is `hang`) */
+	pthread_setcancelstate(PTHREAD_CANCEL_DISABLE, &oldstate);
+	while (!stop_at_join)
+		pthread_cond_wait(&cv_resume, &mu);
+	pthread_mutex_unlock(&mu);
+	pthread_setcancelstate(oldstate, &oldstate);
+}
+
+/* ---- `allocfail K`: the K-th allocation request of the library during the next `run sync` is refused (lrtr_set_alloc_functions) */
+static long alloc_fail_at, alloc_reqs;
+static bool alloc_refused;
+
+static void *h_malloc(size_t n)
+{
+	if (alloc_fail_at && ++alloc_reqs == alloc_fail_at) {
+		alloc_refused = true;
+		return NULL;
+	}
+	return malloc(n);
+}
+
+static void *h_realloc(void *p, size_t n)
+{
+	if (alloc_fail_at && ++alloc_reqs == alloc_fail_at) {
+		alloc_refused = true;
+		return NULL;
+	}
+	return realloc(p, n);
+}
+
+static void h_free(void *p)
+{
+	free(p);
+}
 
 static struct pfx_table pfxt;
 static struct spki_table spkit;
@@ -349,6 +448,7 @@ static int m_open(void *s)
 	int rc = TR_SUCCESS;
 
 	(void)s;
+	transport_call("open");
 	if (oq_head < oq_tail)
 		rc = openq[oq_head++];
 	dump_tables("T");
@@ -376,6 +476,7 @@ static const char *m_ident(void *s)
 static int m_recv(const void *s, void *buf, const size_t len, const time_t timeout)
 {
 	(void)s;
+	transport_call("recv");
 	for (;;) {
 		if (tape_head == tape_tail) {
 			if (!threaded) {
@@ -474,8 +575,30 @@ static int m_send(const void *s, const void *pdu, const size_t len, const time_t
 
 	(void)s;
 	(void)timeout;
+	transport_call("send");
+	/* time that passes inside this call (a write that blocks before it accepts anything / part of the data) */
+	while (sq_head < sq_tail && sendq[sq_head].k == S_DT)
+		fake_now += sendq[sq_head++].n;
 	if (sq_head < sq_tail)
 		e = sendq[sq_head++];
+	if (w_timeout) {
+		/* `sendall`: the same outcomes, traced with the timeout the call was given */
+		if (e.k == S_ERR || e.k == S_BLOCK) {
+			tracef("V %zu %lld -> %d", len, (long long)timeout, e.k == S_ERR ? -1 : -2);
+			return e.k == S_ERR ? TR_ERROR : TR_WOULDBLOCK;
+		}
+		if (e.k == S_PART) {
+			if ((size_t)e.n < n)
+				n = (size_t)e.n;
+			if (n == 0)
+				n = 1;
+		}
+		h = malloc(2 * n + 1);
+		hexstr(h, pdu, n);
+		tracef("V %zu %lld -> %zu %s", len, (long long)timeout, n, h);
+		free(h);
+		return (int)n;
+	}
 	switch (e.k) {
 	case S_ERR:
 		tracef("W %zu -> -1", len);
@@ -656,6 +779,12 @@ int main(void)
 			fresh_tables();
 			tape_head = tape_tail = sq_head = sq_tail = oq_head = oq_tail = 0;
 			fake_now = 1000;
+			stop_at_call = 0;
+			dbg_quiet = false;
+			if (alloc_fail_at) {
+				alloc_fail_at = 0;
+				lrtr_set_alloc_functions(malloc, realloc, free);
+			}
 			memset(&sock, 0, sizeof(sock));
 			rc = rtr_init(&sock, &trs, &pfxt, &spkit, (unsigned int)a, (unsigned int)b, (unsigned int)c,
 				      (enum rtr_interval_mode)d, state_cb, NULL, NULL);
@@ -796,6 +925,8 @@ int main(void)
 					e.k = S_ERR;
 				else if (!strcmp(w[i], "block"))
 					e.k = S_BLOCK;
+				else if (!strncmp(w[i], "dt:", 3) && parse_ll(w[i] + 3, &e.n) && e.n >= 0)
+					e.k = S_DT;
 				else {
 					ok = false;
 					break;
@@ -837,12 +968,18 @@ int main(void)
 			parked = false;
 			threaded = true;
 			h_joined = 0;
+			call_no = 0;
+			stop_at_join = false;
+			h_before_join = release_parked_call;
+			/* cleared BEFORE the thread exists: the thread may reach a `hang` event before this thread runs again (on a
+			 * loaded machine the new thread often runs first); clearing the flag afterwards made the join below wait for a
+			 * thread that waits for rtr_stop */
+			hanging = false;
 			if (rtr_start(&sock) != RTR_SUCCESS) {
 				threaded = false;
 				puts("bad-op");
 				continue;
 			}
-			hanging = false;
 			wait_parked();
 			if (!hanging) {
 				pthread_join(sock.thread_id, NULL);
@@ -859,6 +996,91 @@ int main(void)
 			threaded = false;
 			parked = false;
 			tape_head = tape_tail;
+			stop_at_call = 0;
+			stop_at_join = false;
+			dbg_quiet = false;
+			flush_trace();
+			puts("end");
+		} else if (!strcmp(w[0], "stopat") && n == 2 && !threaded) {
+			long long k;
+
+			if (!parse_ll(w[1], &k) || k < 0 || k > 1000000) {
+				puts("bad-op");
+				continue;
+			}
+			stop_at_call = (int)k;
+			dbg_quiet = k != 0;
+			puts("ok");
+		} else if (!strcmp(w[0], "allocfail") && n == 2 && !threaded) {
+			long long k;
+
+			if (!parse_ll(w[1], &k) || k < 0) {
+				puts("bad-op");
+				continue;
+			}
+			/* k = 0: back to the C library's allocator */
+			alloc_fail_at = k;
+			alloc_reqs = 0;
+			alloc_refused = false;
+			if (k)
+				lrtr_set_alloc_functions(h_malloc, h_realloc, h_free);
+			else
+				lrtr_set_alloc_functions(malloc, realloc, free);
+			puts("ok");
+		} else if (!strcmp(w[0], "run") && n == 2 && !strcmp(w[1], "syncaf") && !threaded) {
+			/* rtr_sync with the armed allocation failure; the allocator goes back to normal right after the call */
+			int rc;
+
+			alloc_reqs = 0;
+			alloc_refused = false;
+			rc = rtr_sync(&sock);
+			tracef("A %ld %d", alloc_reqs, (int)alloc_refused);
+			alloc_fail_at = 0;
+			lrtr_set_alloc_functions(malloc, realloc, free);
+			tracef("ret %d", rc);
+			flush_trace();
+			puts("end");
+		} else if (!strcmp(w[0], "sendall") && n >= 4 && !threaded) {
+			/* sendall <now> <timeout> <hex bytes> <outcome>...: the real tr_send_all on a scripted sequence of write outcomes
+			 * (all | part:N | err | block, each optionally preceded by dt:N = N seconds pass inside that write call) */
+			long long now0, tmo;
+			size_t bn;
+			unsigned char *bytes = NULL;
+			bool ok = parse_ll(w[1], &now0) && parse_ll(w[2], &tmo) && now0 >= 0 && (bytes = parse_hex(w[3], &bn)) && bn > 0;
+			int rc;
+
+			sq_head = sq_tail = 0;
+			for (int i = 4; i < n && ok; i++) {
+				struct sev e = {S_ALL, 0};
+
+				if (!strcmp(w[i], "all"))
+					e.k = S_ALL;
+				else if (!strncmp(w[i], "part:", 5) && parse_ll(w[i] + 5, &e.n) && e.n >= 1)
+					e.k = S_PART;
+				else if (!strcmp(w[i], "err"))
+					e.k = S_ERR;
+				else if (!strcmp(w[i], "block"))
+					e.k = S_BLOCK;
+				else if (!strncmp(w[i], "dt:", 3) && parse_ll(w[i] + 3, &e.n) && e.n >= 0)
+					e.k = S_DT;
+				else
+					ok = false;
+				if (ok)
+					sendq[sq_tail++] = e;
+			}
+			if (!ok) {
+				free(bytes);
+				sq_head = sq_tail = 0;
+				puts("bad-op");
+				continue;
+			}
+			fake_now = now0;
+			w_timeout = true;
+			rc = tr_send_all(&trs, bytes, bn, (time_t)tmo);
+			w_timeout = false;
+			sq_head = sq_tail = 0;
+			free(bytes);
+			tracef("ret %d %lld", rc, fake_now);
 			flush_trace();
 			puts("end");
 		} else if (!strcmp(w[0], "val") && n == 5) {
